@@ -635,6 +635,8 @@ def unit_rewrites(ud, rel, s, rw):
         s = rw.literal('T8', s, 'Decimal::E', 'dec_c_e()')
     if part == 'glue' and stack in ('f64', 'number', 'complex'):
         s = t8_f64_consts(s, rw)
+    if stack == 'decimal' and part in ('glue', 'tok', 'parser') and not rel.endswith('/ast.rs'):
+        s = t8_decimal_consts(s, rw)
     if part == 'ast' and stack == 'complex':
         s = t8_f64_consts(s, rw)
     if rel.endswith('/mod.rs') and part == 'glue':
@@ -685,11 +687,12 @@ def unit_rewrites(ud, rel, s, rw):
             s = rw.literal('T3', s, 'use num_complex::Complex;', '')
         if stack == 'decimal':
             # T8: associated constants;  T15: `x op= e;` -> `x = x op (e);` (Decimal is Copy; vstd has no *Assign specs)
-            s = rw.literal('T8', s, 'Decimal::ZERO', 'dec_c_zero()')
-            s = rw.literal('T8', s, 'Decimal::MAX', 'dec_c_max()')
-            s = rw.literal('T8', s, 'Decimal::MIN', 'dec_c_min()')
+            s = t8_decimal_consts(s, rw)
             s = t15_assign_ops(s, rw)
         if stack in ('f64', 'number') and part == 'ast':
+            # T27: gamma() (plain f64 arithmetic, no loop) is verified under the name gamma_impl; callers see the wrapper `gamma` of the
+            # contract prelude, whose body is the call and whose assumed contract says the result is a function of the argument
+            s = rw.regex('T27', s, r'\bfn gamma\(a: f64\) -> f64 \{', 'fn gamma_impl(a: f64) -> f64 {', expect_min=1)
             # T20..T23: IEEE primitives Verus has no encoding for are outlined to helpers whose *bodies are the original
             # primitive* and whose contract is an uninterpreted function of the operands (f64_header.vinc)
             s = t20_float_neg(s, rw)
@@ -709,7 +712,7 @@ def t16_from_str(s, rw):
     out = []
     i = 0
     n = 0
-    for m in re.finditer(r'Decimal::from_str\(', s):
+    for m in re.finditer(r'Decimal::from_str(?:_exact)?\(', s):
         if m.start() < i:
             continue
         close = rsrc.match_close(s, m.end() - 1)
@@ -717,7 +720,7 @@ def t16_from_str(s, rw):
         if not mm:
             continue
         out.append(s[i:m.start()])
-        out.append('verif_parse_dec(' + s[m.end():close] + ')')
+        out.append(('verif_parse_dec_exact(' if m.group(0).endswith('_exact(') else 'verif_parse_dec(') + s[m.end():close] + ')')
         i = close + 1 + mm.end()
         n += 1
     out.append(s[i:])
@@ -781,6 +784,13 @@ def t20_float_neg(s, rw):
 F64_CONSTS = (('f64::NEG_INFINITY', 'c_neg_inf()'), ('f64::INFINITY', 'c_inf()'), ('f64::NAN', 'c_nan()'),
               ('std::f64::consts::PI', 'c_f64_pi()'), ('std::f64::consts::E', 'c_f64_e()'), ('f64::EPSILON', 'c_f64_epsilon()'),
               ('f64::MIN_POSITIVE', 'c_f64_min_positive()'), ('f64::MAX', 'c_f64_max()'), ('f64::MIN', 'c_f64_min()'))
+
+
+def t8_decimal_consts(s, rw):
+    for name, fn in (('ZERO', 'dec_c_zero'), ('MAX', 'dec_c_max'), ('MIN', 'dec_c_min'), ('ONE_HUNDRED', 'dec_c_hundred'), ('ONE', 'dec_c_one'),
+                     ('TWO', 'dec_c_two'), ('TEN', 'dec_c_ten'), ('NEGATIVE_ONE', 'dec_c_neg_one')):
+        s = rw.regex('T8', s, r'\bDecimal::%s\b' % name, fn + '()')
+    return s
 
 
 def t8_f64_consts(s, rw):
